@@ -11,10 +11,10 @@ from sa.poly import RF
 from sa.selftest import Edit, Variant
 from sa.sym import ClassRef, Cond, Interp, PyCallable, Rec, SymStr, Unknown, explore, method_of, to_rf
 
-from sa.texts import T as _T
+from sa.texts import T as _TX
 
-EXPLANATION = _T["C04"]["explanation"] + " Not decided: " + _T["C04"]["not_decided"] + "."
-ASSUMPTIONS = _T["C04"]["assumptions"]
+EXPLANATION = _TX["C04"]["explanation"] + " Not decided: " + _TX["C04"]["not_decided"] + "."
+ASSUMPTIONS = _TX["C04"]["assumptions"]
 P = "C04"
 S = RF.sym
 
